@@ -41,7 +41,9 @@ ProgInit(c) == Init0(c.lvl, FALSE, [n \in {c.f} |-> Field(c.dt, "valid", 1)])
 Matching(s, op, e) ==
   {o \in Step(s, op) : /\ o.res = e.res
                        /\ (op.k = "str" => o.mark = e.mark)
-                       /\ (op.k = "set" => (e.kept = "?" \/ o.chg = (e.kept = "F")))}
+                       /\ (op.k = "set" => (e.kept = "?" \/ o.chg = (e.kept = "F")))
+                       \* an outcome in which reading replaced the stored object needs that observation
+                       /\ (op.k = "get" => (o.chg => e.kept = "F"))}
 \* the clause violated when no allowed outcome matches (s: a state consistent so far)
 ProgClause(s, op) ==
   LET L == s.o
